@@ -45,6 +45,8 @@ namespace Aoe.Map
 inductive Err | value | index | type | stopIteration | fuel
   deriving DecidableEq, Repr
 
+deriving instance DecidableEq for Except
+
 /-- `TerrainTile`: the three stored fields and `_index` -/
 structure Tile where
   terrainId : Int
